@@ -295,6 +295,7 @@ package keeper
 //@   ensures [C17.update.inv.nodup] err == nil ==> forall d string, i int, j int :: has(AccountList, d) && 0 <= i && i < j && j < len(AccountList[d].AccountDids) ==> AccountList[d].AccountDids[i] != AccountList[d].AccountDids[j]
 //@   ensures [C17.update.only] err == nil ==> forall c string :: old(has(Did, c)) && !(exists q int :: 0 <= q && q < len(msg.RemoveAccountDid) && old(has(AccountId, msg.RemoveAccountDid[q]))
 //@         && old(AccountId[msg.RemoveAccountDid[q]].AccountId) == c) ==> has(Did, c) && Did[c] == old(Did[c])
+//@   ensures [C17.update.authremoved] err == nil ==> forall q int :: 0 <= q && q < len(msg.RemoveAccountDid) ==> !has(AccountAuth, msg.RemoveAccountDid[q]) && !has(AccountId, msg.RemoveAccountDid[q])
 //@   ensures [C17.update.delisted] err == nil ==> has(AccountList, msg.Did) && (forall q int :: 0 <= q && q < len(msg.RemoveAccountDid) ==> !contains(AccountList[msg.Did].AccountDids, msg.RemoveAccountDid[q]))
 //@       && (forall x string :: old(contains(AccountList[msg.Did].AccountDids, x)) && !contains(msg.RemoveAccountDid, x) ==> contains(AccountList[msg.Did].AccountDids, x))
 //@       && (forall x string :: contains(AccountList[msg.Did].AccountDids, x) ==> old(contains(AccountList[msg.Did].AccountDids, x)))
@@ -319,13 +320,16 @@ package keeper
 //@   loop L3 invariant [C17.update.unbound] forall c string :: AccountId[c] == old(AccountId[c]) && (has(AccountId, c) <==> old(has(AccountId, c)))
 //@   loop L3 invariant PaymentAddress[msg0.Did] == old(PaymentAddress[msg0.Did]) && has(PaymentAddress, msg0.Did)
 //@   loop L4 invariant [C17.update.only] forall c string :: (has(Did, c) <==> entry(has(Did, c))) && Did[c] == entry(Did[c])
-//@   loop L4 invariant -1 <= rangeindex
+//@   loop L4 invariant -1 <= rangeindex && rangeindex < len(removeList)
+//@   loop L4 invariant [C17.update.authremoved] forall q int :: 0 <= q && q <= rangeindex ==> !has(AccountId, removeList[q])
 //@   loop L4 invariant PaymentAddress[msg0.Did] == old(PaymentAddress[msg0.Did]) && has(PaymentAddress, msg0.Did)
 //@   loop L5 invariant [C17.update.only] forall c string :: (has(Did, c) <==> entry(has(Did, c))) && Did[c] == entry(Did[c])
 //@   loop L5 invariant -1 <= rangeindex && rangeindex < len(updateList)
+//@   loop L5 invariant [C17.update.authremoved] forall c string :: has(AccountId, c) <==> entry(has(AccountId, c))
 //@   loop L5 invariant PaymentAddress[msg0.Did] == old(PaymentAddress[msg0.Did]) && has(PaymentAddress, msg0.Did)
 //@   loop L6 invariant [C17.update.only] forall c string :: (has(Did, c) <==> entry(has(Did, c))) && Did[c] == entry(Did[c])
 //@   loop L6 invariant -1 <= rangeindex && rangeindex < len(removeList)
+//@   loop L6 invariant [C17.update.authremoved] (forall q int :: 0 <= q && q <= rangeindex ==> !has(AccountAuth, removeList[q])) && (forall q int :: 0 <= q && q < len(removeList) ==> !has(AccountId, removeList[q]))
 //@   loop L6 invariant PaymentAddress[msg0.Did] == old(PaymentAddress[msg0.Did]) && has(PaymentAddress, msg0.Did)
 //@   loop L6 invariant [C17.update.delisted] forall q int :: 0 <= q && q <= rangeindex ==> !contains(accountList.AccountDids, removeList[q])
 //@   loop L6 invariant [C17.update.delisted] forall i int, j int :: 0 <= i && i < j && j < len(accountList.AccountDids) ==> accountList.AccountDids[i] != accountList.AccountDids[j]
@@ -334,5 +338,6 @@ package keeper
 //@   loop L6 invariant [C17.update.delisted] accountList.Did == entry(accountList.Did)
 //@   loop L7 invariant [C17.update.only] forall c string :: (has(Did, c) <==> entry(has(Did, c))) && Did[c] == entry(Did[c])
 //@   loop L7 invariant -1 <= rangeindex && rangeindex < len(accountList.AccountDids)
+//@   loop L7 invariant [C17.update.authremoved] (forall c string :: has(AccountAuth, c) <==> entry(has(AccountAuth, c))) && (forall c string :: has(AccountId, c) <==> entry(has(AccountId, c)))
 //@   loop L7 invariant [C17.update.delisted] accountList == entry(accountList)
 //@   loop L7 invariant [C17.update.delisted] forall k int :: 0 <= k && k <= rangeindex ==> accountList.AccountDids[k] != toRemove
